@@ -52,6 +52,7 @@ func judgeC09(sc *BatchSc, x *batchExec, br batchRun, fail string) Verdict {
 	per := itemEvents(br.Events, n)
 	f, lastEv, failed := firstFailure(sc, br.Events)
 	after := 0
+	lateStarts := 0
 	if sc.stop() && failed {
 		for _, e := range br.Events {
 			if e.Kind != "exec" || e.Attempt != 0 || e.Item == f {
@@ -63,7 +64,13 @@ func judgeC09(sc *BatchSc, x *batchExec, br batchRun, fail string) Verdict {
 					return bad(fmt.Sprintf("C09:started-after-failure:c=%d", min(sc.C, 2)), "stop mode, concurrency %d: item %d was started after item %d had failed (events %v)", sc.C, e.Item, f, bevStrings(br.Events))
 				}
 			} else if e.Epoch >= lastEv.EndEpoch && e.Seq > lastEv.Seq {
-				return bad("C09:started-after-failure:c>=2", "stop mode, %d workers: item %d was started after the failure of item %d had been handled (others were parked) (events %v)", sc.C, e.Item, f, bevStrings(br.Events))
+				// "only items that were already picked up by the other c-1 workers can still run":
+				// an implementation may have handed an item to each other worker before it started
+				// it, so up to c-1 late starts are admissible - more are not
+				lateStarts++
+				if lateStarts > sc.C-1 {
+					return bad("C09:started-after-failure:c>=2", "stop mode, %d workers: %d items were started after the failure of item %d had been handled (at most c-1=%d can have been picked up already); last: item %d (events %v)", sc.C, lateStarts, f, sc.C-1, e.Item, bevStrings(br.Events))
+				}
 			}
 		}
 		for i := f + 1; i < n; i++ {
@@ -209,6 +216,8 @@ func TestC09(t *testing.T) {
 		}
 	}
 	rapidPart(r, "rand", r.pick(3000, 50000), genC09, checkC09)
+	// "in every mode each result slot is the real outcome or an error" also while a cancellation strikes
+	rapidPart(r, "rand-cancelled", r.pick(1500, 25000), genC11, checkC09)
 }
 
 func init() { registerReplay("C09", checkC09) }
